@@ -7,7 +7,7 @@ From Coq Require Import List NArith ZArith Bool.
 From Falco Require Import Base.Bytes Gen.TokenTypes Model.ParseKinds Gen.ParserTables
   Model.ParseBase Model.Ast Model.ParseLit Model.ParseExpr Model.ParseStmt Model.ParseDecl Model.Yield
   Proofs.ParseTables Proofs.ParseExprYield Proofs.ParseExprTotal Proofs.ParsePratt Proofs.ParseRoundtrip
-  Proofs.ParseLitFacts Proofs.ParseStmtYield Proofs.ParseDeclYield.
+  Proofs.ParseLitFacts Proofs.ParseStmtYield Proofs.ParseDeclYield Proofs.ParseStmtTotal Proofs.ParseDeclTotal.
 Import ListNotations.
 Local Open Scope N_scope.
 
@@ -118,6 +118,27 @@ Theorem C02_decode_escapes_plain :
   forall s, forallb plain s = true -> decode_escapes s = POK s.
 Proof. exact decode_escapes_plain. Qed.
 
+(* ... and the whole parser: every entry point, EVERY token list.  The fuel is S (tokens) for the
+   top-level loops, 4 * tokens + 8 for nested statements / backend properties, 2 * tokens + 4 for
+   expressions, S (tokens left) for the flat loops.  [long_ok ts]: the STRING token behind an
+   OPEN_LONG_STRING is not of the double-quoted kind (the lexer gives it Offset >= 4); it excludes
+   the only reachable fault point of the parser, `str.LongString = true` on a nil str.  The other
+   fault point of the model, `lc.Statements[len(lc.Statements)-1]` in ParseSwitchStatement, is
+   proved unreachable (a case clause accepted by ParseCaseStatement ends in break; / fallthrough;). *)
+Theorem C02_parse_total : forall fok ts, parse_vcl_or_snippet fok ts <> PFuel.
+Proof. exact parse_total. Qed.
+Theorem C02_parse_no_crash :
+  forall fok ts, long_ok ts = true -> parse_vcl_or_snippet fok ts <> PCrash.
+Proof. exact parse_no_crash. Qed.
+Theorem C02_parse_vcl_total : forall fok ts, parse_vcl fok ts <> PFuel.
+Proof. exact parse_vcl_total. Qed.
+Theorem C02_parse_vcl_no_crash : forall fok ts, long_ok ts = true -> parse_vcl fok ts <> PCrash.
+Proof. exact parse_vcl_no_crash. Qed.
+Theorem C02_parse_snippet_total : forall fok ts, parse_snippet fok ts <> PFuel.
+Proof. exact parse_snippet_total. Qed.
+Theorem C02_parse_snippet_no_crash : forall fok ts, long_ok ts = true -> parse_snippet fok ts <> PCrash.
+Proof. exact parse_snippet_no_crash. Qed.
+
 Print Assumptions C02_tables_are_documented.
 Print Assumptions C02_parse_expr_yield.
 Print Assumptions C02_parse_stmt_yield.
@@ -133,3 +154,9 @@ Print Assumptions C02_int_literal_exact.
 Print Assumptions C02_escape_only_in_dquote.
 Print Assumptions C02_long_string_raw.
 Print Assumptions C02_decode_escapes_plain.
+Print Assumptions C02_parse_total.
+Print Assumptions C02_parse_no_crash.
+Print Assumptions C02_parse_vcl_total.
+Print Assumptions C02_parse_vcl_no_crash.
+Print Assumptions C02_parse_snippet_total.
+Print Assumptions C02_parse_snippet_no_crash.
